@@ -9,11 +9,59 @@ import KinModel.Lemmas.C09Legacy
 import KinModel.Lemmas.C09LegacyComplete
 import KinModel.Lemmas.C09LegacyLiteral
 import KinModel.Lemmas.C09Server
+import KinModel.Lemmas.C09Facts
 import KinModel.Lemmas.C09Gorilla
 import KinModel.Lemmas.C09Spec
 import KinModel.Lemmas.C09Witness
 namespace KinModel.Props.C09
 open KinModel.Router
+
+/-! ## the source facts the models copy by hand (table `RouterFacts`, regenerated from the source on every run) -/
+
+/-- the translator could read every code shape it looks for -/
+theorem router_facts_recognised : ∀ r ∈ KinModel.Gen.routerFacts, factRecognised r = true := by decide +kernel
+
+/-- pathpattern: the numbers of the suffix kinds are those of `sufKind` (constant < regexp < variable < everything),
+    `SuffixList.Less` is "kind first, then the larger pattern first" (`sufLess`), CreateNode and Match strip trailing slashes
+    with the same loop (`stripSlashes` on both sides) -/
+theorem router_facts_pathpattern :
+    routerFact "suffixKind.SuffixKindConstant" = some "0" ∧ sufKind (.const []) = 0 ∧
+    routerFact "suffixKind.SuffixKindRegExp" = some "1" ∧
+    routerFact "suffixKind.SuffixKindVariable" = some "2" ∧ sufKind .var = 2 ∧
+    routerFact "suffixKind.SuffixKindEverything" = some "3" ∧ sufKind .all = 3 ∧
+    routerFact "less.body" = some "{ a, b := list[i], list[j] ak, bk := a.Kind, b.Kind if ak < bk { return true } else if bk < ak { return false } return a.Pattern > b.Pattern }" ∧
+    routerFact "stripLoop.CreateNode" = some "for strings.HasSuffix(path, \"/\") { path = path[:len(path)-1] }" ∧
+    routerFact "stripLoop.Match" = routerFact "stripLoop.CreateNode" := by decide +kernel
+
+/-- Paths.InMatchingOrder counts '}' per template, walks the counts upwards and sorts each group in descending string order
+    (`pathBefore`) -/
+theorem router_facts_matching_order :
+    routerFact "inMatchingOrder.count" = some "strings.Count(path, \"}\")" ∧
+    routerFact "inMatchingOrder.loop" = some "c := 0; c <= max; c++" ∧
+    routerFact "inMatchingOrder.sort" = some "sort.Sort(sort.Reverse(sort.StringSlice(ps)))" := by decide +kernel
+
+/-- gorillamux: encoded-path mux router; one fresh Route per (path, server) carrying that server; FindRoute returns a copy;
+    newSrv drops one trailing slash of any non-empty base path; a path item's servers are assigned to the variable of the
+    enclosing function (the leak that `gLoop true` models, F-C09-10) -/
+theorem router_facts_gorillamux :
+    routerFact "gorilla.newRouter.mux" = some "muxRouter := mux.NewRouter().UseEncodedPath()" ∧
+    routerFact "gorilla.newRouter.routeLiterals" = some "1" ∧
+    routerFact "gorilla.newRouter.routePerServer" = some "true" ∧
+    routerFact "gorilla.newRouter.route" = some "Spec: doc, Server: s.server, Path: path, PathItem: pathItem, Method: \"\", Operation: nil" ∧
+    routerFact "gorilla.newRouter.pathServers" = some "servers, err = makeServers(pathItem.Servers)" ∧
+    routerFact "gorilla.findRoute.copy" = some "route := *r.routes[i]" ∧
+    routerFact "gorilla.findRoute.returns" = some "return &route, vars, nil | return nil, nil, routers.ErrMethodNotAllowed | return nil, nil, routers.ErrPathNotFound" ∧
+    routerFact "gorilla.newSrv.trim" = some "len(path) > 0 && path[len(path)-1] == '/'" := by decide +kernel
+
+/-- legacy: NewRouter ranges over two Go maps (hence the arbitrary key order of the legacy theorems), its routes have no
+    Server and FindRoute never sets one (`setSrv = false`, F-C09-8); only the document's servers are read (F-C09-9) -/
+theorem router_facts_legacy :
+    routerFact "legacy.newRouter.ranges" = some "doc.Paths.Map() | pathItem.Operations()" ∧
+    routerFact "legacy.newRouter.routeFields" = some "Spec,Path,PathItem,Method,Operation" ∧
+    routerFact "legacy.findRoute.setsRouteServer" = some "false" ∧
+    routerFact "legacy.findRoute.serversFrom" = some "doc.Servers" ∧
+    routerFact "errors.ErrPathNotFound" = some "&RouteError{\"no matching operation was found\"}" ∧
+    routerFact "errors.ErrMethodNotAllowed" = some "&RouteError{\"method not allowed\"}" := by decide +kernel
 
 /-! ## legacy router -/
 
